@@ -189,6 +189,37 @@ Theorem C05_noconn nm i p o l l' inv : run l (noconn_ops nm i p o) = Ok (l', inv
 Proof. intros H. apply implicit in H. destruct nm; exact H. Qed.
 Print Assumptions C05_noconn.
 
+(* 7c. the sixth naming site: a no-connect (named or not) on a bundle-valued port of an Instance Array - one new Signal per member
+       path.  One name per member, pairwise distinct, none bound in the Module before, of the form <no-connect or inst_port>_<path>
+       plus underscores; every existing binding kept.  (A fresh prefix alone would not give this: the designer may hold <prefix>_<member>.) *)
+Theorem C05_noconn_array_bundle nm i p paths id0 l l' inv : run l (noconn_member_ops nm i p paths id0) = Ok (l', inv) ->
+  List.length inv = List.length paths /\ NoDup inv /\ (forall n, In n inv -> lookup n l = None) /\
+  Forall2 (fun s n => exists j, n = (join_us (site_segs s) ++ underscores j)%string)
+          (map (fun pk => SNoConnMember nm i p (fst pk)) (number paths id0)) inv /\
+  forall k v, lookup k l = Some v -> lookup k l' = Some v.
+Proof.
+  unfold noconn_member_ops. intros H.
+  pose proof (popped_map_invent (fun pk : list name * N => SNoConnMember nm i p (fst pk))
+                                (fun pk : list name * N => {| o_kind := KSig; o_id := snd pk |}) (number paths id0)) as Hp.
+  pose proof (run_no_pop_names _ Hp _ _ _ H) as F2. rewrite invents_map_invent in F2.
+  split; [rewrite <- (number_length paths id0), <- (map_length (fun pk : list name * N => SNoConnMember nm i p (fst pk)));
+          symmetry; eapply Forall2_length'; exact F2|].
+  split; [eapply run_invented_NoDup; [exact H|rewrite Hp; intros n _ []]|].
+  split.
+  { intros n Hn. destruct (lookup n l) as [v|] eqn:L; [|reflexivity]. exfalso.
+    pose proof (run_invented_new _ _ _ _ H n v Hn L) as Q. rewrite Hp in Q. destruct Q. }
+  split; [exact F2|].
+  intros k v L. eapply run_extends_only; [exact H|exact L|rewrite Hp; intros []].
+Qed.
+Print Assumptions C05_noconn_array_bundle.
+
+Example C05_noconn_array_bundle_witness :
+  run [("arr_b_x", {| o_kind := KSig; o_id := 1 |}); ("nc", {| o_kind := KSig; o_id := 2 |})]
+      (noconn_member_ops None "arr" "b" [["x"]; ["c"; "y"]] 5 ++ noconn_member_ops (Some "nc") "arr" "d" [["x"]] 7)
+  = Ok ([("arr_b_x", {| o_kind := KSig; o_id := 1 |}); ("nc", {| o_kind := KSig; o_id := 2 |}); ("arr_b_x_", {| o_kind := KSig; o_id := 5 |});
+         ("arr_b_c_y", {| o_kind := KSig; o_id := 6 |}); ("nc_x", {| o_kind := KSig; o_id := 7 |})], ["arr_b_x_"; "arr_b_c_y"; "nc_x"]).
+Proof. vm_compute. reflexivity. Qed.
+
 (* 8. the pinned tree (a5cab93): replace_noconn used a no-connect's own name as it was.  The same statements are FALSE for
       that code: NoConn(name="x") beside a signal x re-binds x - the designer's signal is gone from the namespace and every
       connection written to "x" now reads the no-connect's signal (witness replayed on the implementation: corpus stream). *)
